@@ -52,6 +52,9 @@ pub struct Opts {
     pub check_app_id: Option<bool>,
     /// `--flag=value` instead of `--flag value`
     pub eq_style: bool,
+    /// `-i localhost` instead of the address literal (the tool looks the name up and, when no host name option is given, uses it as the host name setting)
+    #[serde(default)]
+    pub by_name: bool,
 }
 
 impl Opts {
@@ -79,11 +82,11 @@ impl Opts {
     }
 
     fn extra(&self) -> Option<gamedig::protocols::types::ExtraRequestSettings> {
-        if self.hostname.is_none() && self.protocol_version.is_none() && self.gather_players.is_none() && self.gather_rules.is_none() && self.check_app_id.is_none() {
+        if self.hostname.is_none() && self.protocol_version.is_none() && self.gather_players.is_none() && self.gather_rules.is_none() && self.check_app_id.is_none() && !self.by_name {
             return None;
         }
         let mut e = gamedig::protocols::types::ExtraRequestSettings::default();
-        e.hostname = self.hostname.clone();
+        e.hostname = self.hostname.clone().or_else(|| self.by_name.then(|| "localhost".to_string()));
         e.protocol_version = self.protocol_version.map(|v| v as i32);
         e.gather_players = self.gather_players.map(|t| crate::entries::toggle(t % 3));
         e.gather_rules = self.gather_rules.map(|t| crate::entries::toggle(t % 3));
@@ -97,9 +100,9 @@ fn opts() -> impl Strategy<Value = Opts> {
     (
         (maybe(5), 1u8 .. 10, maybe(5), 1u8 .. 10, maybe(5), 0u8 .. 3),
         (maybe(4), "[a-z0-9][a-z0-9.-]{0,30}", maybe(4), prop_oneof![0u32 .. 1000, 0u32 ..= i32::MAX as u32]),
-        (maybe(4), 0u8 .. 3, maybe(4), 0u8 .. 3, maybe(5), any::<bool>(), any::<bool>()),
+        (maybe(4), 0u8 .. 3, maybe(4), 0u8 .. 3, maybe(5), any::<bool>(), any::<bool>(), maybe(4)),
     )
-        .prop_map(|((hw, w, hc, c, hr, r), (hh, h, hp, p), (hgp, gp, hgr, gr, hca, ca, eq_style))| {
+        .prop_map(|((hw, w, hc, c, hr, r), (hh, h, hp, p), (hgp, gp, hgr, gr, hca, ca, eq_style, by_name))| {
             Opts {
                 write: hw.then_some(w),
                 connect: hc.then_some(c),
@@ -110,6 +113,7 @@ fn opts() -> impl Strategy<Value = Opts> {
                 gather_rules: hgr.then_some(gr),
                 check_app_id: hca.then_some(ca),
                 eq_style,
+                by_name,
             }
         })
 }
@@ -332,7 +336,7 @@ impl Prop for C19 {
         "the real gamedig_cli binary (built from /repo for every run) is run against real loopback UDP/TCP servers that serve random states of the reference models (strings \
          with markup characters, quotes, control characters, non-BMP characters; rule keys with spaces / digits first / empty; numbers at type limits incl. u64 above i64::MAX) \
          for 16 games covering every protocol family x 2 output modes x 6 formats x a random subset of the other valid options (write / connect timeouts, retries, host name, \
-         protocol version, gather toggles, app id check; `--flag value` or `--flag=value`), which the in-process library call receives too. Oracle: exit status 0 and exactly one document on stdout that a strict parser in the harness \
+         protocol version, gather toggles, app id check; `--flag value` or `--flag=value`; the address as literal or as the name `localhost`), which the in-process library call receives too. Oracle: exit status 0 and exactly one document on stdout that a strict parser in the harness \
          accepts (serde_json; an XML 1.1 well-formedness checker incl. the Name production and restricted characters; the bson crate after hex / base64 decoding; debug: non-empty) \
          and that carries the values the library returns for the same server queried in-process (JSON / BSON: structural equality, floats within 1e-6; XML: the tree the CLI's \
          documented JSON->XML mapping gives, children compared as multisets). Invalid invocations (generated junk / out-of-range / extreme values for every value-taking flag in front of a refused connection or an unknown game; spellings of zero for the three timeout flags with UDP and TCP games; unknown game, unresolvable host, closed port, zero / non-numeric / negative \
@@ -486,7 +490,19 @@ impl Prop for C19 {
                 o.label(format!("format={fmt}"));
                 o.label(if *specific { "mode=protocol-specific" } else { "mode=generic" });
                 o.label(format!("game={game}"));
-                let lo = IpAddr::V4(Ipv4Addr::LOCALHOST);
+                let lo = if opts.by_name {
+                    use std::net::ToSocketAddrs;
+                    o.label("address=name");
+                    match "localhost:0".to_socket_addrs().ok().and_then(|mut a| a.next()) {
+                        Some(a) => a.ip(),
+                        None => {
+                            o.excluded = Some("`localhost` does not resolve here".into());
+                            return o;
+                        }
+                    }
+                } else {
+                    IpAddr::V4(Ipv4Addr::LOCALHOST)
+                };
                 let proto = match fam {
                     Family::McJava | Family::McLegacy(_) => Proto::Tcp,
                     _ => Proto::Udp,
@@ -548,7 +564,7 @@ impl Prop for C19 {
                 let etext = expected.to_string();
                 o.nontrivial = etext.chars().any(|c| matches!(c, '<' | '>' | '&' | '\'') || !c.is_ascii() ) || etext.contains("\\u00") || etext.contains("\\\"");
                 // the read timeout stays the last argument: it is the one replaced when a loopback timeout asks for more patience
-                let mut args: Vec<String> = ["query", "-g", game, "-i", "127.0.0.1", "-p", &port.to_string(), "-f", fmt, "-o", if *specific { "protocol-specific" } else { "generic" }]
+                let mut args: Vec<String> = ["query", "-g", game, "-i", if opts.by_name { "localhost" } else { "127.0.0.1" }, "-p", &port.to_string(), "-f", fmt, "-o", if *specific { "protocol-specific" } else { "generic" }]
                     .iter()
                     .map(|s| s.to_string())
                     .collect();
